@@ -11,7 +11,7 @@ vars == <<tid, l, verdict, done>>
 Init == tid \in 1..Len(Traces) /\ l = 1 /\ verdict = "ok" /\ done = FALSE
 RT(e) == IF e.totalNone THEN e.rt ELSE Min(e.rt, e.total)
 TT(e) == IF e.ttNone THEN RT(e) ELSE Min(e.tt, RT(e))
-Timeouts == {"AdbTimeoutError", "SimTimeout"}
+Timeouts == {"AdbTimeoutError", "SimTimeout", "TcpTimeoutException"}    \* the library's error, the in-memory transport's timeout error, the TCP transports' timeout error
 Clause(e) ==
   IF e.ev # "end" THEN "ok"
   ELSE IF e.hang THEN "C11.Bounded"
